@@ -7,12 +7,12 @@ PROPS = {
         decided="necessary conditions for incremental = from-scratch: rule/slot tables, def-before-use in the schedule, class-level reachability for link edits, value-level provenance completeness (per branch) for numeric edits, ordering guards of the three chain builders, single entry point for edits, no inherited list mutator, no-op skip only on equality, injective ids (values and objects), operator summaries valid on every path, snapshot order of the before/after totals, link bookkeeping written only by its owners, the system looked up on every object of a recomputation chain, memo tables keyed completely",
         not_decided="the numeric equality edited-vs-rebuilt; instance-level reachability through pre-change links"),
     "C02": dict(
-        rules=["R-AGG", "R-DEG", "R-ACCUM", "R-LEAK", "R-CHAIN:system"],
+        rules=["R-AGG", "R-DEG", "R-ACCUM", "R-LEAK", "R-CHAIN:system", "R-ONCE"],
         decided="structure of the aggregation: the four category dicts agree on keys, collections, attributes and deduplication; every footprint-bearing class is covered; footprint = energy x intensity (degree rows); accumulator discipline and no loop variable read after its loop in model code; the system (whose stored total is the only aggregate that is not recomputed on the fly) is appended to every recomputation chain, looked up on every object of the chain",
         not_decided="finiteness and sign of the values"),
     "C03": dict(
-        rules=["R-SHIFT", "R-FILL", "R-PERUP", "R-DEG", "R-DELAY", "R-ACCUM", "R-ZEROCUT"],
-        decided="index shift (freq=) not positional shift, zero-fill on series addition/multiplication, per-pattern writer/reader collection agreement, linearity of load quantities in the traffic series, delay increased after a step's jobs are placed and steps enumerated from the uj_steps list itself (order and multiplicity), accumulators only added to (never overwritten, compounded or scaled inside the loop), empty-value shortcuts taken only on emptiness / == 0 tests (never on an ordering test that would swallow negative data_stored)",
+        rules=["R-SHIFT", "R-FILL", "R-PERUP", "R-DEG", "R-DELAY", "R-ACCUM", "R-ZEROCUT", "R-ONCE"],
+        decided="index shift (freq=) not positional shift, zero-fill on series addition/multiplication, per-pattern writer/reader collection agreement, linearity of load quantities in the traffic series, delay increased after a step's jobs are placed and steps enumerated from the uj_steps list itself (order and multiplicity), accumulators only added to (never overwritten, compounded or scaled inside the loop), empty-value shortcuts taken only on emptiness / == 0 tests (never on an ordering test that would swallow negative data_stored), a collection that is summed over holds each object once (navigation properties that concatenate their containers' lists are de-duplicated)",
         not_decided="the conservation identities themselves (floor/ceil hour arithmetic, totals)"),
     "C04": dict(
         rules=["R-RAW2", "R-BOUND", "R-CUMUL"],
